@@ -13,7 +13,7 @@
 //!
 //! Oracles: unique-id datagram histories (c02's payload format), byte comparison for T, /proc/<pid>/fd counts by kind
 //! sampled every second. `--sub c01|c02|c15` selects whose signatures are reported (the workload is the same; c15 runs
-//! to 650 s, the others to 335 s).
+//! to 650 s, the others to 342 s).
 
 use std::collections::HashMap;
 use std::net::SocketAddr;
@@ -230,7 +230,7 @@ async fn one_config(a: Args, idx: usize, proto: Proto, transport: Transport, use
 
     // ---- second 0
     // the chatter W: keeps both nodes' tables being looked at (expiry is lazy) and is the bystander whose service must go on
-    let end_s: u64 = if long { 650 } else { 335 };
+    let end_s: u64 = if long { 650 } else { 342 };
     let w_fail = Arc::new(Mutex::new(Vec::<u64>::new()));
     let w_ok = Arc::new(std::sync::atomic::AtomicU64::new(0));
     let chatter = {
@@ -259,7 +259,7 @@ async fn one_config(a: Args, idx: usize, proto: Proto, transport: Transport, use
         }
     }
     // B subscribes to 33 ticks (330 s) and sends nothing more until second 322
-    let n_ticks: u32 = 33;
+    let n_ticks: u32 = 34;
     // (exchange adds its attempt counter, 1.., to the base: the target sees SUBSCRIBE + n_ticks or a little more)
     first_ok &= app_b.exchange(nonce, cport, tport, SUBSCRIBE + n_ticks - 1).await.is_ok();
     if !first_ok {
@@ -399,9 +399,9 @@ async fn one_config(a: Args, idx: usize, proto: Proto, transport: Transport, use
         if !dup.is_empty() {
             rep.violation(format!("C02|{cfgname}|idle-expiry|tick-delivered-twice"), format!("{cfgname}: ticks {:?} reached the subscriber more than once", dup), witness("subscriber B", json!({"duplicated": dup})));
         }
-        // three or more consecutive ticks up to the last one missing = the flow has died; sporadic loss is only noted
+        // two or more consecutive ticks up to the last one missing = the flow has died; sporadic loss is only noted
         let tail_missing = sent.iter().rev().filter(|(_, w)| w.elapsed() >= Duration::from_secs(2)).take_while(|(k, _)| missing.contains(k)).count();
-        if tail_missing >= 3 {
+        if tail_missing >= 2 {
             let first = sent.len() - tail_missing;
             rep.violation(format!("C02|{cfgname}|idle-expiry|replies-stop-while-the-target-keeps-sending"), format!("{cfgname}: the target sent one datagram every 10 s to an application that had sent one datagram at second 0; from tick {first} (second {}) on none arrived", (first + 1) * 10), witness("subscriber B", json!({"ticks_sent": counted, "missing": missing})));
         } else if !missing.is_empty() {
